@@ -568,6 +568,9 @@ disconnecting) is evaluated by `decide`; the six stream exchanges of `SysEx.sche
 the theorems (the kernel cannot evaluate `List.mergeSort`, which every exchange uses), exactly as the
 non-vacuity example of `C03_converges_all` does. -/
 
+section SysExample
+open Piko.Gossip
+
 namespace SysEx
 
 /-- three nodes boot; upstream 3 registers `foo` on `n1`, upstream 5 registers `foo` on `n2`, upstream 7
@@ -721,5 +724,6 @@ example : ∃ x row, (Sys.runRev (sched ++ hist)).node "n0" = some x ∧ x.mgr.c
   · rw [hes, hreg]; simp
   · rw [hes, hreg]; simp
 
+end SysExample
 
 end Piko
